@@ -563,6 +563,7 @@ func (w *World) confinedTypes() map[string]bool {
 	}
 	escapes := map[string]bool{}
 	created := map[string]bool{}
+	containedBy := map[string][]string{}
 	mark := func(v ssa.Value) {
 		if n := isT(v.Type()); n != nil {
 			escapes[n.Obj().Name()] = true
@@ -621,7 +622,12 @@ func (w *World) confinedTypes() map[string]bool {
 				for i := 0; i < u.NumFields(); i++ {
 					ft := u.Field(i).Type()
 					if n := isT(ft); n != nil && n.Obj() != tn {
-						escapes[n.Obj().Name()] = true
+						if _, isPtr := ft.(*types.Pointer); !isPtr && isT(tn.Type()) != nil {
+							// embedded by value in another struct of the package: as confined as its container
+							containedBy[n.Obj().Name()] = append(containedBy[n.Obj().Name()], tn.Name())
+						} else {
+							escapes[n.Obj().Name()] = true
+						}
 					}
 					switch e := ft.Underlying().(type) {
 					case *types.Slice:
@@ -645,6 +651,25 @@ func (w *World) confinedTypes() map[string]bool {
 				escapes[n.Obj().Name()] = true
 			}
 		}
+	}
+	// a type held by value in a field escapes with its container (or when the container is
+	// exported or never created locally: its values then come from elsewhere)
+	for changed := true; changed; {
+		changed = false
+		for inner, outers := range containedBy {
+			if escapes[inner] {
+				continue
+			}
+			for _, o := range outers {
+				if escapes[o] || token.IsExported(o) {
+					escapes[inner] = true
+					changed = true
+				}
+			}
+		}
+	}
+	for inner := range containedBy {
+		created[inner] = true // created as part of its container
 	}
 	out := map[string]bool{}
 	for t := range created {
